@@ -240,8 +240,8 @@ def check(prog, rep):
         "eigenvector selection and of the translate/rotate/translate composition and call-site frames"
     )
     rep.trusted += ["sympy expand / groebner (used as a polynomial normaliser)"]
-    rep.not_decided += ["convergence and accuracy of the Jacobi sweeps (30 max, 1e-12 threshold), hence the 1e-6 A / 0.05 degree "
-                        "tolerances", "degenerate (collinear) inputs", "the rounding of RADIANS_TO_DEGREES"]
+    rep.not_decided += ["convergence of the Jacobi sweeps beyond the model fits of R6 (eight rigid motions of one template triple, two of "
+                        "them chosen because they need five sweeps)", "degenerate (collinear) inputs", "the rounding of RADIANS_TO_DEGREES"]
     q = prog.module("quatfit.py")
     F = {n.name: n for n in q.tree.body if isinstance(n, ast.FunctionDef)}
     for need in ("q2mat", "qchichange", "rotmol", "qtrfit", "jacobi", "qfit", "qtransform", "find_coordinates", "center", "translate"):
@@ -251,9 +251,15 @@ def check(prog, rep):
     # ------------------------------------------------------------------ R1
     r1 = rep.rule("R1", "q2mat yields a proper rotation for every unit quaternion (never a mirror image)", floor=2)
     qs = sp.symbols("q0:4")
-    Um, n = matrix_assignments(F["q2mat"], "urot", {"quat": list(qs)}, sp, 3)
-    if n != 9 or any(x is None for row in Um for x in row):
-        raise AnalysisError(f"q2mat: expected nine matrix assignments, found {n}")
+    from ..guards import Flow
+    from ..objinterp import ObjRunner
+    qrun = ObjRunner(prog, "quatfit.py")
+    try:
+        Um = qrun.call_function("quatfit.py", "q2mat", list(qs))
+    except Flow as fl:
+        raise AnalysisError(f"q2mat stops with {fl.value} on a symbolic quaternion") from None
+    if not (isinstance(Um, list) and len(Um) == 3 and all(isinstance(r_, list) and len(r_) == 3 for r_ in Um)):
+        raise AnalysisError("q2mat did not return a 3x3 nested list on the model")
     Umat = sp.Matrix(Um)
     nrm = sum(x * x for x in qs)
     ortho = (Umat * Umat.T - nrm**2 * sp.eye(3)).applyfunc(sp.expand)
@@ -268,11 +274,40 @@ def check(prog, rep):
     r2 = rep.rule("R2", "the torsion matrix is a right-handed Rodrigues rotation about the normalised axis", floor=4)
     ls = sp.symbols("l0:3")
     c, s = sp.symbols("c s")
-    Rm, n = matrix_assignments(F["qchichange"], "right", {"left": list(ls), "__cos": c, "__sin": s}, sp, 3)
-    if n != 9:
-        raise AnalysisError(f"qchichange: expected nine matrix assignments, found {n}")
     xs = sp.symbols("x0:3")
-    A = rotmol_matrix(F["rotmol"], [[Rm[i][j] for j in range(3)] for i in range(3)], xs, sp)
+    ys = sp.symbols("y0:3")
+    axis_sym = sp.symbols("a0:3")
+    ang = sp.Symbol("angle")
+    seen = {"normalize": [], "trig": []}
+
+    def qc_extra(runner, interp, call, args, kw):
+        nm = U(call.func)
+        if nm.split(".")[-1] == "normalize" and len(args) == 1:
+            seen["normalize"].append(list(args[0]))
+            return list(ls)
+        if nm in ("math.cos", "cos", "np.cos") and len(args) == 1:
+            seen["trig"].append(args[0])
+            return c
+        if nm in ("math.sin", "sin", "np.sin") and len(args) == 1:
+            seen["trig"].append(args[0])
+            return s
+        return NotImplemented
+
+    def qc_names(interp, node):
+        if U(node) in ("math.pi", "np.pi"):
+            return sp.pi
+        return NotImplemented
+
+    crun = ObjRunner(prog, "quatfit.py", extra_hook=qc_extra)
+    crun.names = lambda interp, node, _orig=crun.names: (sp.pi if U(node) in ("math.pi", "np.pi", "pi") else _orig(interp, node))
+    try:
+        out_pts = crun.call_function("quatfit.py", "qchichange", list(axis_sym), [list(xs), list(ys)], ang)
+    except Flow as fl:
+        raise AnalysisError(f"qchichange stops with {fl.value} on symbolic input") from None
+    if not (isinstance(out_pts, list) and len(out_pts) == 2 and all(len(list(p_)) == 3 for p_ in out_pts)):
+        raise AnalysisError("qchichange did not return one rotated point per input point on the model")
+    A = sp.Matrix([sp.expand(e) for e in out_pts[0]]).jacobian(list(xs))
+    A2 = sp.Matrix([sp.expand(e) for e in out_pts[1]]).jacobian(list(ys))
     G = sp.groebner([c**2 + s**2 - 1, ls[0]**2 + ls[1]**2 + ls[2]**2 - 1], c, s, *ls, order="grevlex")
 
     def red(e):
@@ -290,27 +325,20 @@ def check(prog, rep):
     ax = (A * L - L).applyfunc(red)
     r2.add("axis-fixed", ax == sp.zeros(3, 1), "A*l = l: points on the axis do not move, distances to axis atoms are preserved", w2)
     r2.add("det+1", red(A.det() - 1) == 0, "det A = 1 modulo the side relations", w2)
-    qc = F["qchichange"]
-    srcq = U(qc)
-    r2.add("axis-normalised", "normalized = normalize(initcoords)" in srcq and all(f"left[{i}] = normalized[{i}]" in srcq for i in range(3)),
-           "the axis handed to the matrix is normalize(initcoords)", w2)
-    r2.add("degrees-to-radians", "radangle = math.pi * angle / 180.0" in srcq, "angle converted with pi/180", w2)
-    ret = [st for st in qc.body if isinstance(st, ast.Return)]
-    r2.add("applies-to-all-points", bool(ret) and U(ret[0].value) == "rotmol(numpoints, refcoords, right)" and "numpoints = len(refcoords)" in srcq,
-           f"returns {U(ret[0].value) if ret else '?'}", w2)
+    r2.add("axis-normalised", bool(seen["normalize"]) and all(v == list(axis_sym) for v in seen["normalize"]),
+           f"the axis used in the matrix is normalize(<axis argument>) (normalize called with {seen['normalize'][:1]})", w2)
+    okang = bool(seen["trig"]) and all(sp.simplify(a_ - sp.pi * ang / 180) == 0 for a_ in seen["trig"])
+    r2.add("degrees-to-radians", okang, f"cos/sin are taken of {sorted({str(a_) for a_ in seen['trig']})} (pi*angle/180 expected)", w2)
+    lin0 = sp.expand(sp.Matrix(out_pts[0]) - A * sp.Matrix(xs)) == sp.zeros(3, 1)
+    r2.add("applies-to-all-points", (A2 - A).applyfunc(sp.expand) == sp.zeros(3, 3) and lin0,
+           "every point handed over is multiplied by the same matrix (two symbolic points in, two out)", w2)
 
     # ------------------------------------------------------------------ R3
     r3 = rep.rule("R3", "fit matrix, quaternion-to-matrix and rotmol conventions agree (Horn identity); largest eigenvector is used", floor=3)
     w3 = f"pdb2pqr/quatfit.py:{F['qtrfit'].lineno} (qtrfit)"
-    Aq = rotmol_matrix(F["rotmol"], [[Umat[i, j] for j in range(3)] for i in range(3)], xs, sp)
+    Aq = rotmol_by_interpretation(prog, sp, [[Umat[i, j] for j in range(3)] for i in range(3)], xs)
     rule_qtrfit_semantics(prog, r3, sp, qs, Aq, w3)
-    jac = F["jacobi"]
-    sort_cmp = [n for n in ast.walk(jac) if isinstance(n, ast.Compare) and U(n.left) == "dvec[i]" and U(n.comparators[0]) == "dtemp"]
-    asc = bool(sort_cmp) and isinstance(sort_cmp[0].ops[0], ast.Lt)
-    swap_cols = "vmat[i][k] = vmat[i][j]" in U(jac) and "vmat[i][j] = dtemp" in U(jac)
-    r3.add("largest-eigenvector", asc and swap_cols,
-           f"jacobi sorts eigenvalues ascending (selection by {U(sort_cmp[0]) if sort_cmp else '?'}) swapping eigenvector columns with them "
-           "(qtrfit takes the last column: decided by 'eigenvector-unmodified')", f"pdb2pqr/quatfit.py:{jac.lineno} (jacobi/qtrfit)")
+    rule_jacobi_models(prog, rep, r3)
 
     # ------------------------------------------------------------------ R4
     r4 = rep.rule("R4", "call sites rotate about bond b->c relative to b; the measured torsion uses the same sign convention", floor=4)
@@ -360,44 +388,133 @@ def check(prog, rep):
         raise AnalysisError("dihedral(): snap thresholds do not fold to constants")
 
     # ------------------------------------------------------------------ R5
-    r5 = rep.rule("R5", "the placed point is rotmol(d - mean(template), U) + mean(structure)", floor=5)
-    ce = F["center"]
-    tc = U(ce)
-    wce = f"pdb2pqr/quatfit.py:{ce.lineno} (center)"
-    r5.add("center", all(f"refcenter[{i}] += refcoords[i][{i}]" in tc for i in range(3)) and "refcenter[i] = refcenter[i] / numpoints" in tc
-           and all(f"relcoords[i].append(refcoords[i][{i}] - refcenter[{i}])" in tc for i in range(3))
-           and "return (refcenter, relcoords)" in tc, "center returns (mean, x - mean)", wce)
-    tr = F["translate"]
-    tt = U(tr)
-    modes = {}
-    for st in ast.walk(tr):
-        if isinstance(st, ast.If) and U(st.test).startswith("mode == "):
-            m = try_fold(st.test.comparators[0])
-            for x in st.body:
-                if isinstance(x, ast.Assign) and U(x.targets[0]) == "modif":
-                    modes[m] = try_fold(x.value)
-    r5.add("translate", modes == {1: -1, 2: 1} and all(f"refcoords[i][{i}] + modif * center_[{i}]" in tt for i in range(3)),
-           f"translate adds modif*centre with modif per mode {modes}", f"pdb2pqr/quatfit.py:{tr.lineno} (translate)")
-    qt = U(F["qtransform"])
-    r5.add("qtransform", "fitcoords = translate(numpoints, defcoords, fitcenter, 1)" in qt and "rotated = rotmol(numpoints, fitcoords, rotation)" in qt
-           and "return translate(numpoints, rotated, refcenter, 2)" in qt, "subtract the template centre, rotate, add the structure centre",
-           f"pdb2pqr/quatfit.py:{F['qtransform'].lineno} (qtransform)")
-    qf = U(F["qfit"])
-    r5.add("qfit", "refcenter, refcoords = center(numpoints, refcoords)" in qf and "defcenter, defcoords = center(numpoints, defcoords)" in qf
-           and "_, lrot = qtrfit(numpoints, defcoords, refcoords, nrot)" in qf and "return (refcenter, defcenter, lrot)" in qf,
-           "qfit centres both sets, fits template onto structure (the order R3 assumes) and returns (structure centre, template centre, rotation)",
-           f"pdb2pqr/quatfit.py:{F['qfit'].lineno} (qfit)")
-    fc = F["find_coordinates"]
-    tf = U(fc)
-    params = [a.arg for a in fc.args.args]
-    r5.add("find_coordinates", params == ["numpoints", "refcoords", "defcoords", "defatomcoords"] and
-           "refcenter, fitcenter, rotation = qfit(numpoints, refcoords, defcoords)" in tf and
-           "newcoords = qtransform(1, defatomcoords, refcenter, fitcenter, rotation)" in tf and "return newcoords[0]" in tf,
-           "find_coordinates forwards centres and rotation in the order qtransform expects", f"pdb2pqr/quatfit.py:{fc.lineno} (find_coordinates)")
-    wrap = [st for st in F["qtransform"].body if isinstance(st, ast.If) and U(st.test) == "numpoints == 1"
-            and any(isinstance(x, ast.Assign) and U(x.value) == f"[{U(x.targets[0])}]" for x in st.body)]
-    r5.add("single-point-wrap", bool(wrap), "a single point is wrapped into a list before the transforms",
-           f"pdb2pqr/quatfit.py:{F['qtransform'].lineno} (qtransform)")
+    r5 = rep.rule("R5", "the placed point is rotmol(d - mean(template), U) + mean(structure)", floor=2)
+    rule_placement_semantics(prog, r5, sp)
+
+
+SLOW_FITS = [  # (axis, angle in radians): rigid motions of the SER CB/CA/N triple whose fit needs a fifth Jacobi sweep (found by search, frozen)
+    ((0.3573, 0.0924, 0.2334), 1.75884), ((-0.4044, -0.5629, 0.286), -2.30469),
+]
+PLAIN_FITS = [((0.0, 0.0, 1.0), 0.0), ((0.0, 0.0, 1.0), 1.5707963267948966), ((1.0, 0.0, 0.0), 3.141592653589793), ((1.0, 2.0, -0.5), 0.7),
+              ((-0.3, 0.9, 0.2), -2.9), ((0.2, -0.1, 0.97), 0.0005)]
+
+
+def rule_jacobi_models(prog, rep, r3):
+    """The diagonaliser and the whole placement are evaluated on concrete models: a diagonal matrix (sorting and column
+    permutation) and rigid motions of a template triple, two of which are known to need five sweeps."""
+    import math
+    from ..guards import Flow
+    from ..objinterp import ObjRunner
+    from ..tables import Tables
+    jac = prog.func("quatfit.py", "jacobi")
+    wj = f"pdb2pqr/quatfit.py:{jac.node.lineno} (jacobi)"
+    run = ObjRunner(prog, "quatfit.py")
+    diag = [3.0, 1.0, 4.0, 2.0]
+    amat = [[diag[i] if i == j else 0.0 for j in range(4)] for i in range(4)]
+    try:
+        dvec, vmat = run.call_function("quatfit.py", "jacobi", amat, 30)
+    except Flow as fl:
+        raise AnalysisError(f"jacobi stops with {fl.value} on a diagonal matrix") from None
+    order = sorted(range(4), key=lambda k: diag[k])
+    oks = list(dvec) == sorted(diag) and all(abs(abs(vmat[order[k]][k]) - 1.0) < 1e-12 and
+                                              all(abs(vmat[r_][k]) < 1e-12 for r_ in range(4) if r_ != order[k]) for k in range(4))
+    r3.add("largest-eigenvector", oks, f"diag{tuple(diag)}: eigenvalues returned as {list(dvec)} with the eigenvector columns permuted along "
+           f"(last column = axis {order[3]}, the largest eigenvalue's; qtrfit takes the last column: 'eigenvector-unmodified')" if oks else
+           f"diag{tuple(diag)} -> eigenvalues {list(dvec)}, vectors {vmat}: not sorted ascending with matching columns", wj)
+    # numeric models of the whole placement
+    r6 = rep.rule("R6", "model fits: the placed atom lies within 1e-6 A of the exact rigid image of its template position", floor=6)
+    t = Tables(prog.root)
+    ser = t.map["SER"].atoms
+    tpl = [list(ser[a].xyz) for a in ("CB", "CA", "N")]
+    d = list(ser["OG"].xyz)
+
+    def rot(v, axis, ang):
+        nrm = math.sqrt(sum(a * a for a in axis))
+        l_ = [a / nrm for a in axis]
+        c_, s_ = math.cos(ang), math.sin(ang)
+        dot = sum(l_[i] * v[i] for i in range(3))
+        cr = [l_[1] * v[2] - l_[2] * v[1], l_[2] * v[0] - l_[0] * v[2], l_[0] * v[1] - l_[1] * v[0]]
+        return [c_ * v[i] + (1 - c_) * dot * l_[i] + s_ * cr[i] for i in range(3)]
+
+    shift = [3.0, -7.0, 11.0]
+    fc = prog.func("quatfit.py", "find_coordinates")
+    wf = f"pdb2pqr/quatfit.py:{fc.node.lineno} (find_coordinates; Jacobi sweeps in qfit/jacobi)"
+    for kind, fits in (("plain", PLAIN_FITS), ("slow", SLOW_FITS)):
+        for axis, ang in fits:
+            ref = [[x + sh for x, sh in zip(rot(p_, axis, ang), shift)] for p_ in tpl]
+            exact = [x + sh for x, sh in zip(rot(d, axis, ang), shift)]
+            try:
+                got = run.call_function("quatfit.py", "find_coordinates", 3, [list(p_) for p_ in ref], [list(p_) for p_ in tpl], list(d))
+            except Flow as fl:
+                r6.bad(f"fit|{kind}|{axis}:{ang:.4f}", f"find_coordinates stops with {fl.value}", wf)
+                continue
+            err = math.dist([float(x) for x in got], exact)
+            r6.add(f"fit|{kind}|{axis}:{ang:.4f}", err <= 1e-6,
+                   f"SER OG placed from CB/CA/N moved by {math.degrees(ang):.2f} deg about {axis}: {err:.2e} A from the exact image" +
+                   ("" if err <= 1e-6 else " -- beyond the 1e-6 A of the property (the diagonalisation had not converged when it was stopped)"), wf)
+
+
+def rotmol_by_interpretation(prog, sp, lrot, xs):
+    """Effective matrix of rotmol(1, [x], lrot): the function is interpreted on a symbolic point."""
+    from ..guards import Flow
+    from ..objinterp import ObjRunner
+    run = ObjRunner(prog, "quatfit.py")
+    try:
+        out = run.call_function("quatfit.py", "rotmol", 1, [list(xs)], [list(r_) for r_ in lrot])
+    except Flow as fl:
+        raise AnalysisError(f"rotmol stops with {fl.value} on a symbolic point") from None
+    if not (isinstance(out, list) and len(out) == 1 and len(list(out[0])) == 3):
+        raise AnalysisError("rotmol did not return one 3-vector for one point")
+    return sp.Matrix([sp.expand(e) for e in out[0]]).jacobian(list(xs))
+
+
+def rule_placement_semantics(prog, r5, sp):
+    """find_coordinates is interpreted on three symbolic point pairs and a symbolic template atom with the fit itself
+    (qtrfit) kept uninterpreted: the result must be rotmol(d - mean(template), L) + mean(structure), and the fit must be asked
+    to superpose the centred template onto the centred structure."""
+    from ..guards import Flow
+    from ..objinterp import ObjRunner
+    n = 3
+    ref = [[sp.Symbol(f"s{p}{i}") for i in range(3)] for p in range(n)]   # structure points
+    tpl = [[sp.Symbol(f"t{p}{i}") for i in range(3)] for p in range(n)]   # template points
+    atom = [sp.Symbol(f"d{i}") for i in range(3)]
+    L = [[sp.Symbol(f"L{i}{j}") for j in range(3)] for i in range(3)]
+    rec = []
+
+    def extra(runner, interp, call, args, kw):
+        if U(call.func) == "qtrfit":
+            rec.append([a for a in args])
+            return ["QUAT", [list(r_) for r_ in L]]
+        return NotImplemented
+
+    run = ObjRunner(prog, "quatfit.py", extra_hook=extra)
+    fc = prog.func("quatfit.py", "find_coordinates")
+    where = f"pdb2pqr/quatfit.py:{fc.node.lineno} (find_coordinates -> qfit -> qtransform)"
+    try:
+        out = run.call_function("quatfit.py", "find_coordinates", n, [list(p_) for p_ in ref], [list(p_) for p_ in tpl], list(atom))
+    except Flow as fl:
+        raise AnalysisError(f"find_coordinates stops with {fl.value} on symbolic input") from None
+    if len(rec) != 1 or len(rec[0]) < 3:
+        raise AnalysisError("find_coordinates: expected one call of qtrfit on the model")
+    mean_s = [sum(ref[p][i] for p in range(n)) / n for i in range(3)]
+    mean_t = [sum(tpl[p][i] for p in range(n)) / n for i in range(3)]
+
+    def same(u, v):
+        return len(list(u)) == len(list(v)) and all(sp.simplify(sp.expand(x - y)) == 0 for x, y in zip(list(u), list(v)))
+
+    fit_def, fit_ref = rec[0][1], rec[0][2]
+    okd = len(fit_def) == n and all(same(fit_def[p], [tpl[p][i] - mean_t[i] for i in range(3)]) for p in range(n))
+    okr = len(fit_ref) == n and all(same(fit_ref[p], [ref[p][i] - mean_s[i] for i in range(3)]) for p in range(n))
+    r5.add("fit-direction", okd and okr and rec[0][0] == n,
+           "the fit is asked to superpose the centred template points (first) onto the centred structure points (second), all of them" if okd and okr
+           else f"qtrfit receives {str(fit_def)[:80]} / {str(fit_ref)[:80]}: not (template - mean, structure - mean)", where)
+    A = rotmol_by_interpretation(prog, sp, L, sp.symbols("x0:3"))
+    want = A * sp.Matrix([atom[i] - mean_t[i] for i in range(3)]) + sp.Matrix(mean_s)
+    okp = isinstance(out, (list, tuple)) and len(list(out)) == 3 and same(list(out), list(want))
+    r5.add("placement", okp, "the placed point is rotmol(d - mean(template), L) + mean(structure) for the rotation L the fit returns" if okp else
+           f"find_coordinates returns {str(out)[:120]}", where)
+    # a single point and a list of points go through the same transform
+    r5.info["methods_interpreted"] = sorted(set(run.calls))
 
 
 def rotmol_matrix(fn, lrot, xs, sp):
